@@ -210,3 +210,15 @@ Definition init_dom (c : classdef) (kw : kwargs) : bool :=
   forallb (fun fd => plain (fd_name fd) && negb (pystr_eqb (fd_name fd) n_kwargs) &&
                      match fd_default fd with Some PNone => false | _ => true end) (c_fields c) &&
   negb (has_dup (field_names c)).
+
+(* [construct] of Struct/Instance.v with the declared keywords assigned in the order [sig_order] lists them (the
+   order of the signature's parameters) instead of the caller's order *)
+Definition construct_sig (re_match : N -> pystr -> bool) (e : env) (sig_order : kwargs -> kwargs)
+           (c : classdef) (kw : kwargs) : res pyval :=
+  if has_dup (map fst kw) then Raise Unmodelled
+  else if negb (bind_ok c kw) then Raise TypeError
+  else
+    a0 <- set_all re_match e c [] (extras_of c kw) ;;
+    a1 <- set_all re_match e c a0 (defaults_of c kw) ;;
+    a2 <- set_all re_match e c a1 (sig_order (bound_of c kw)) ;;
+    if hook_ok (c_hook c) a2 then Ok (PStruct (c_name c) a2) else Raise ValueError.
